@@ -7,6 +7,10 @@ use std::io::{BufRead, BufReader, BufWriter, Write};
 
 fn main() {
     let args: Vec<String> = std::env::args().collect();
+    if args.len() >= 2 && args[1] == "restart-child" {
+        // hidden mode: one phase of the `restart` suite (a real node over a data dir), see suites/restart.rs
+        suites::restart::child_main(&args[2..]);
+    }
     if args.len() < 4 {
         eprintln!("usage: rnverif <suite> <cases.jsonl> <out.jsonl>");
         std::process::exit(2);
@@ -14,7 +18,10 @@ fn main() {
     let suite = args[1].as_str();
     let input = BufReader::new(std::fs::File::open(&args[2]).expect("open cases"));
     let mut out = BufWriter::new(std::fs::File::create(&args[3]).expect("create out"));
-    std::panic::set_hook(Box::new(|_| {}));
+    if std::env::var_os("RNVERIF_PANIC").is_none() {
+        // silent by default; RNVERIF_PANIC=1 keeps the default hook (panic messages of actor tasks)
+        std::panic::set_hook(Box::new(|_| {}));
+    }
     let mut runner = suites::make(suite).unwrap_or_else(|| {
         eprintln!("unknown suite {}", suite);
         std::process::exit(2);
